@@ -351,6 +351,17 @@ M("C07", "v48-closure-h-iv-after-object", (HU, "            hasher.write_usize(i
 M("C11", "lossy-prune-skipped-for-known", (LC, "                value.f += 1;\n                false\n            }", "                value.f += 1;\n                return false;\n            }"), "R09-prune", "add")
 M("C03", "v39-cursor-assert-too-strong", (HLL, "            debug_assert!(idx <= idx_last);", "            debug_assert!(idx < idx_last);"), "R03-panic-census", "", base="benign/B39/patch.diff")
 
+# ======================================================================================= round 10 additions
+M("C06", "bloom-union-compares-word-count", (BF, "            self.bs.len(),\n            other.bs.len(),\n            \"m must be equal", "            self.bs.as_slice().len(),\n            other.bs.as_slice().len(),\n            \"m must be equal"), "R06-guards", "union")
+M("C06", "bloom-union-compares-popcount", (BF, "            self.bs.len(),\n            other.bs.len(),\n            \"m must be equal", "            self.bs.count_ones(..) > 0,\n            other.bs.count_ones(..) > 0,\n            \"m must be equal"), "R06-guards", "union")
+M("C01", "quotient-clear-keeps-continuation", (QF, "        self.is_continuation.clear();\n", ""), "R19-clear-covers-state", "is_continuation")
+M("C01", "cuckoo-clear-keeps-table", (CF, "        self.table = IntVector::with_fill(self.table.element_bits(), self.table.len(), 0);\n", ""), "R19-clear-covers-state", "table")
+M("C13", "v49-then-inverted", (QF, "        let trash = (bits_trash > 0)\n            .then(|| {", "        let trash = (bits_trash == 0)\n            .then(|| {"), "R13-split", "no-trash", base="benign/B49/patch.diff")
+M("C03", "v51-then-some-off-by-one", (HLL, "idx_right = (next < lookup_array.len()).then_some(next);", "idx_right = (next <= lookup_array.len()).then_some(next);"), "R03-neighbour-bounds", "idx_right", base="benign/B51/patch.diff")
+M("C07", "v50-map-or-mask-one-too-wide", (CF, "            .map_or(u64::MAX, |pow| pow - 1);", "            .map_or(u64::MAX, |pow| pow);"), "R07-fingerprint-nonzero", "fingerprint", base="benign/B50/patch.diff")
+M("C09", "v53-filter-map-then-strict", (LC, "(entry.f >= min_freq).then(|| elem.clone())", "(entry.f > min_freq).then(|| elem.clone())"), "R09-query", "query", base="benign/B53/patch.diff")
+M("C13", "v49-next-slot-wraps-early", (QF, "        *slot = if *slot == self.is_occupied.len() - 1 {", "        *slot = if *slot == self.is_occupied.len() - 2 {"), "R13-scan", "scan", base="benign/B49/patch.diff")
+
 
 def main():
     out = os.path.join(os.path.dirname(os.path.abspath(__file__)), "corpus.json")
